@@ -1070,3 +1070,221 @@ func wd1WideOffsets(p *core.Prog, rep *core.Report, blockSize int64) {
 	}
 	rep.Check(len(bad) == 0, "WD1", "block-offset-width", fmt.Sprintf("%d products with a factor >= the block size, none computed narrow and widened afterwards", nMul), "", strings.Join(sortedStr(bad), "; "), true)
 }
+
+// cd8CursorInBlock: the write cursor is (block id, offset inside the block) and Size() = id*blockSize + offset. The
+// offset must stay strictly below the block size: a cursor left AT the block size (a record that ends exactly on a
+// boundary, not carried into the next block) makes the next record's reported position (block N, offset 32768) -
+// the reader looks in block N, finds nothing at that offset and answers EOF for an acknowledged write.
+func cd8CursorInBlock(p *core.Prog, rep *core.Report, blockSize int64) {
+	rep.Rule("CD8", "in-block cursor bound: every value stored to the in-block offset field of DataFile (the field Size() adds unscaled) is provably < blockSize - a remainder modulo the block size, a constant below it, the field itself, a value guarded by a strict comparison with the block size, or (through calls, results, parameters and phis) composed of such values")
+	sizeFn := p.MustMethod(p.R.DataFile, "Size")
+	// the unscaled field: loaded in Size() and not an operand of the multiplication
+	var off *types.Var
+	for _, b := range sizeFn.Blocks {
+		for _, in := range b.Instrs {
+			u, ok := in.(*ssa.UnOp)
+			if !ok {
+				continue
+			}
+			f, _ := core.LoadedField(u)
+			if f == nil || fieldOwner(p, f) != p.R.DataFile {
+				continue
+			}
+			scaled := false
+			var walk func(v ssa.Value, d int)
+			walk = func(v ssa.Value, d int) {
+				if d > 4 {
+					return
+				}
+				for _, r := range *v.Referrers() {
+					switch t := r.(type) {
+					case *ssa.Convert:
+						walk(t, d+1)
+					case *ssa.BinOp:
+						if t.Op == token.MUL || t.Op == token.SHL {
+							scaled = true
+						}
+					}
+				}
+			}
+			walk(u, 0)
+			if !scaled {
+				off = f
+			}
+		}
+	}
+	if off == nil {
+		core.Failf("role unresolved: in-block offset field (loaded unscaled by (*DataFile).Size)")
+	}
+	type key struct {
+		v ssa.Value
+	}
+	memo := map[ssa.Value]int{} // 1 ok, 2 bad, 3 in progress (assumed ok: inductive)
+	var why string
+	var bounded func(v ssa.Value, d int) bool
+	bounded = func(v ssa.Value, d int) bool {
+		if m, ok := memo[v]; ok {
+			return m != 2
+		}
+		if d > 24 {
+			why = "derivation too deep at " + v.Name()
+			return false
+		}
+		memo[v] = 3
+		res := func() bool {
+			if k, ok := constInt(v); ok {
+				return k >= 0 && k < blockSize
+			}
+			switch t := v.(type) {
+			case *ssa.Convert:
+				return bounded(t.X, d+1)
+			case *ssa.ChangeType:
+				return bounded(t.X, d+1)
+			case *ssa.BinOp:
+				if t.Op == token.REM {
+					if k, ok := constInt(t.Y); ok && k > 0 && k <= blockSize {
+						return true
+					}
+				}
+				if t.Op == token.AND {
+					if k, ok := constInt(t.Y); ok && k >= 0 && k < blockSize {
+						return true
+					}
+				}
+			case *ssa.UnOp:
+				if f, _ := core.LoadedField(t); f == off {
+					return true // the invariant itself
+				}
+			case *ssa.Phi:
+				for i, e := range t.Edges {
+					if bounded(e, d+1) {
+						continue
+					}
+					// a strict guard on the incoming edge
+					pred := t.Block().Preds[i]
+					if strictlyBelow(e, blockSize, pred, t.Block()) {
+						continue
+					}
+					return false
+				}
+				return true
+			case *ssa.Extract:
+				if c, ok := t.Tuple.(*ssa.Call); ok {
+					if callee := c.Common().StaticCallee(); callee != nil && p.InLib(callee) {
+						for _, r := range core.Returns(callee) {
+							if !bounded(core.ReturnOperand(r, t.Index), d+1) {
+								return false
+							}
+						}
+						return true
+					}
+				}
+			case *ssa.Call:
+				if callee := t.Common().StaticCallee(); callee != nil && p.InLib(callee) && callee.Signature.Results().Len() == 1 {
+					for _, r := range core.Returns(callee) {
+						if !bounded(core.ReturnOperand(r, 0), d+1) {
+							return false
+						}
+					}
+					return true
+				}
+			case *ssa.Parameter:
+				fn := t.Parent()
+				idx := -1
+				for i, pp := range fn.Params {
+					if pp == t {
+						idx = i
+					}
+				}
+				sites := libCallSites(p, fn)
+				if idx < 0 || len(sites) == 0 {
+					return false
+				}
+				for _, cs := range sites {
+					if idx >= len(cs.Common().Args) || !bounded(cs.Common().Args[idx], d+1) {
+						return false
+					}
+				}
+				return true
+			}
+			// a dominating strict guard at the point of definition's uses is not tracked here
+			if why == "" {
+				if in, ok := v.(ssa.Instruction); ok {
+					why = fmt.Sprintf("%s (%T at %s) is not provably below the block size", v.Name(), v, p.InstrPos(in))
+				} else {
+					why = fmt.Sprintf("%s (%T) is not provably below the block size", v.Name(), v)
+				}
+			}
+			return false
+		}()
+		if res {
+			memo[v] = 1
+		} else {
+			memo[v] = 2
+		}
+		return res
+	}
+	n := 0
+	perFn := map[*ssa.Function]int{}
+	for _, fn := range p.LibFuncs() {
+		for _, b := range fn.Blocks {
+			for _, in := range b.Instrs {
+				f, _, val := core.StoreField(in)
+				if f != off {
+					continue
+				}
+				n++
+				perFn[fn]++
+				why = ""
+				ok := bounded(val, 0)
+				rep.Check(ok, "CD8", fmt.Sprintf("cursor-below-block-size:%s#%d", core.FuncKey(fn), perFn[fn]), "the in-block offset stored here is < blockSize", p.InstrPos(in), "DataFile."+off.Name()+" may be stored with a value >= the block size: "+why+"; the next record is then reported at an offset the readers never look at", true)
+			}
+		}
+	}
+	if n < 2 {
+		rep.Unk("VAC", "CD8", "expected >= 2 stores to the in-block offset field", "", fmt.Sprintf("found %d", n))
+	}
+}
+
+// strictlyBelow: on the CFG edge pred->succ the value v is known to be < limit by the branch that ends pred (or a
+// dominating branch whose edge dominates pred).
+func strictlyBelow(v ssa.Value, limit int64, pred, succ *ssa.BasicBlock) bool {
+	check := func(iff *ssa.If, taken bool) bool {
+		bo, ok := iff.Cond.(*ssa.BinOp)
+		if !ok {
+			return false
+		}
+		op := bo.Op
+		if !taken {
+			op = negateCmp(op)
+		}
+		if bo.X == v {
+			if k, ok := constInt(bo.Y); ok {
+				return (op == token.LSS && k <= limit) || (op == token.LEQ && k < limit)
+			}
+		}
+		if bo.Y == v {
+			if k, ok := constInt(bo.X); ok {
+				return (op == token.GTR && k <= limit) || (op == token.GEQ && k < limit)
+			}
+		}
+		return false
+	}
+	if iff, ok := pred.Instrs[len(pred.Instrs)-1].(*ssa.If); ok && len(pred.Succs) == 2 {
+		if check(iff, pred.Succs[0] == succ) && pred.Succs[0] != pred.Succs[1] {
+			return true
+		}
+	}
+	for _, b := range pred.Parent().Blocks {
+		iff, ok := b.Instrs[len(b.Instrs)-1].(*ssa.If)
+		if !ok {
+			continue
+		}
+		for _, taken := range []bool{true, false} {
+			if check(iff, taken) && edgeDominates(iff, taken, pred) {
+				return true
+			}
+		}
+	}
+	return false
+}
